@@ -15,7 +15,9 @@ ORACLE = ('the single-byte decoder and its validity test are compared with an in
           'skipped exactly when that decoder says the byte backs no pixel')
 BOUNDS = {'modes': 'every graphics mode row of modes._MODE_INFO with a CGA- or EGA-class memory mapper',
           'address': 'symbolic start address over the whole video window (segment base - 64 .. base + '
-                     '128 KiB + 64)', 'block length': 'symbolic 1 .. 3 rows + 2 bytes',
+                     '128 KiB + 64)', 'block length': 'symbolic 1 .. 3 rows + 2 bytes from any start address; plus blocks that start at the '
+                          'first byte of page 0 and end within 2 rows after a bank / page / page+bank / '
+                          'page+2 banks boundary (whole-screen BSAVE/BLOAD), checked for the last 2 rows',
           'byte index': 'symbolic 0 .. length-1',
           'outside': 'the pixel packing done by ByteMatrix (packed/frompacked), EGA plane masks, '
                      'text-mode mapper, Tandy screen 6 (two-byte interleaved planes), '
@@ -124,6 +126,48 @@ def body_reference(h):
     return [list(pa), bool(ok)]
 
 
+def body_walk_long(h):
+    """whole-screen style blocks: start at the first byte of page 0, length around a bank / page
+    boundary far into the block (BSAVE/BLOAD of one or two pages)"""
+    M, modes = _modes(h)
+    cls, d = modes[h.params['mode']]
+    mode = cls(name=h.params['mode'], video_mem_size=h.params['vmem'], **d)
+    mm = mode.memorymap
+    base = mm._video_segment * 0x10
+    row = mm._bytes_per_row
+    n0 = h.params['n0'](mm)
+    n = n0 + h.int('dn', 0, 2 * row)
+    j = h.int('j', 0, n0 + 2 * row)
+    h.assume(j < n)
+    # the interesting bytes are the ones near the end of the block
+    h.assume(j >= n0 - 2 * row)
+    bank = mm._bank_size
+    slack = (-bank) % row
+    jb = j // bank
+    h.fact('tail_just_after_bank_end', s_and(jb >= 1, n - jb * bank <= slack))
+    segs = list(mm._walk_memory(base, n))
+    P, X, Y = mm._get_coords(base + j)
+    valid = mm._coord_ok(P, X, Y)
+    ncover = 0
+    agree = []
+    for (pg, x, y, ofs, length) in segs:
+        c = s_and(ofs <= j, j < ofs + length)
+        ncover = ncover + core.as_int(c)
+        agree.append(s_implies(c, s_and(pg == P, y == Y, x + (j - ofs) * mm._ppb == X)))
+    h.require('backed-byte-covered-exactly-once', s_implies(valid, ncover == 1))
+    h.require('unbacked-byte-skipped', s_implies(s_not(valid), ncover == 0))
+    h.require('block-walk-agrees-with-byte-decoder', s_and(*agree))
+    return [len(segs)]
+
+
+LONG = {
+    'bank': lambda mm: mm._bank_size,
+    'page': lambda mm: mm._page_size,
+    'page+bank': lambda mm: mm._page_size + mm._bank_size,
+    'page+2banks': lambda mm: mm._page_size + 2 * mm._bank_size,
+}
+
+
 def body_coords(h):
     """the byte decoder itself: consecutive bytes of one row are consecutive pixels groups, rows of a
     bank are interleaved as the mode table says, and decoding is injective on backed bytes"""
@@ -153,4 +197,10 @@ def cases(tier):
                            params={'mode': name, 'vmem': vmem}))
             cs.append(Case('reference-' + tag, body_reference, backend='INT',
                            params={'mode': name, 'vmem': vmem}))
+            for lname, fn in LONG.items():
+                if tier != 'thorough' and name not in ('320x200x4', '320x200x16', '160x200x16'):
+                    continue
+                cs.append(Case('long-%s-%s' % (lname, tag), body_walk_long, backend='INT',
+                               params={'mode': name, 'vmem': vmem, 'n0': fn}, timeout_s=1500,
+                               max_decisions=3000))
     return cs
